@@ -47,6 +47,8 @@ func stateTypeBody(s *Scanner, c byte) *jerr.JApiError {
 	case ContextOpenSign:
 		s.found(ContextOpen)
 		return nil
+	case CommentSign: // a comment between the directive and its body, as before every other body
+		return s.startComment()
 	default:
 		s.step = s.stepStack.Pop()
 		return s.step(s, c)
